@@ -386,9 +386,33 @@ fn main() {
         }
         repo.remove();
     }
+    // layer G: long histories - the nearest tag lies tens of thousands of commits behind HEAD (any cap on how much history
+    // is listed or counted, any narrow counter, shows here and only here)
+    let mut s_g = Stats::default();
+    {
+        let n = if quick { 100_001usize } else { 300_001 };
+        let ops: Vec<String> = vec!["commit".to_string(); n - 1];
+        let shape = gitx::shape_from_ops(&ops).unwrap_or_else(|e| machinery_error(&e));
+        let mut repo = Repo::create(&root, "long", &shape, &gitx::dates(n, DateMode::Increasing));
+        let mid = n / 2;
+        let placements: Vec<(Vec<Tag>, Head)> = vec![
+            (vec![Tag { name: "v1.0.0".into(), target: 0, annotated: false }], Head::Branch("main".into())),
+            (vec![Tag { name: "v1.0.0".into(), target: 0, annotated: true }], Head::Detached(10_000)),
+            (vec![Tag { name: "v1.0.0".into(), target: 0, annotated: false }, Tag { name: "not-a-version".into(), target: n - 2, annotated: false }], Head::Detached(70_000)),
+            (vec![Tag { name: "v1.0.0".into(), target: 0, annotated: false }, Tag { name: "v1.1.0".into(), target: mid, annotated: true }, Tag { name: "v9.0.0".into(), target: n - 1, annotated: false }], Head::Detached(n - 2)),
+        ];
+        for (tags, head) in &placements {
+            repo.set_tags(tags);
+            repo.set_head(head);
+            s_g.inc("states"); s_g.inc("long_history_states");
+            let sr = StateRef { shape: &shape, tags, head, wt: WorkTree::Clean, repo: &repo, label: format!("long history of {n} commits, tags {:?} head {head:?}", tags.iter().map(|t| format!("{}@{}", t.name, t.target)).collect::<Vec<_>>()), cdir: None };
+            judge(&ctx, &sr, "auto", &mut s_g);
+        }
+        repo.remove();
+    }
     let _ = std::fs::remove_dir_all(&root);
 
-    let all = s_main.merge(s_c).merge(s_d).merge(s_e).merge(s_f).merge(s_p.clone());
+    let all = s_main.merge(s_c).merge(s_g).merge(s_d).merge(s_e).merge(s_f).merge(s_p.clone());
     let was_capped = capped.load(std::sync::atomic::Ordering::Relaxed);
     let mut cov = Coverage::default();
     cov.states = all.get("states");
@@ -396,7 +420,7 @@ fn main() {
     cov.evaluations = all.get("evaluations") + all.get("render_evaluations");
     cov.traces_validated = all.get("states");
     cov.distinct_nontrivial = all.get("tagged_evaluations");
-    cov.rule = format!("layer A: BFS over commit / branch&checkout / checkout / merge(ff or true merge) from a one-commit repository, commits <= {nc}, extra branches <= {nb}: {} distinct shapes ({} used{}), {} explorer transitions; layer B: every placement of <= {tmax} tags from {:?} on any commits x HEAD at every branch tip and detached at every commit x date modes (increasing; decreasing, zig-zag and all-equal for merge shapes); layer C: every subset of <= {max_subset} of 8 names {:?} on one commit x 2 HEAD positions x 3 input formats; layer D: 25 work-tree states x {} baseline repositories; layer E: 11 branch names (with '/', '.', non-ASCII, equal to a version tag / a non-version tag / a ref-namespace word) x a tag of the same short name (absent, lightweight or annotated, on the middle commit or the tip) x HEAD on that branch / the other branch / detached x 3 input formats; layer F: checkouts whose .git is a file (linked worktree beside and nested inside the main work tree, separate git directory) clean and with an untracked file. Every state is materialised in real git by fast-import, conformance-checked with `git log --all` / `for-each-ref` / `symbolic-ref` / `status --porcelain=v2`, and judged against R-GIT (nearest validly tagged commit, highest tag under R-SV / C11 order (auto mode: highest under either format that accepts it), distance = |reach(HEAD) minus reach(tag)|, dirty, branch, hashes, times). non-trivial = evaluations that have a valid reachable tag", all_shapes.len(), shapes.len(), if quick { ": all with <= 3 commits plus the 4-commit merge shapes" } else { "" }, shape_transitions, alpha.iter().map(|a| a.0).collect::<Vec<_>>(), names8.iter().map(|a| a.0).collect::<Vec<_>>(), baselines.len());
+    cov.rule = format!("layer A: BFS over commit / branch&checkout / checkout / merge(ff or true merge) from a one-commit repository, commits <= {nc}, extra branches <= {nb}: {} distinct shapes ({} used{}), {} explorer transitions; layer B: every placement of <= {tmax} tags from {:?} on any commits x HEAD at every branch tip and detached at every commit x date modes (increasing; decreasing, zig-zag and all-equal for merge shapes); layer C: every subset of <= {max_subset} of 8 names {:?} on one commit x 2 HEAD positions x 3 input formats; layer D: 27 work-tree states (incl. untracked files covered only by the user-level core.excludesFile or by .git/info/exclude) x {} baseline repositories; layer E: 11 branch names (with '/', '.', non-ASCII, equal to a version tag / a non-version tag / a ref-namespace word) x a tag of the same short name (absent, lightweight or annotated, on the middle commit or the tip) x HEAD on that branch / the other branch / detached x 3 input formats; layer F: checkouts whose .git is a file (linked worktree beside and nested inside the main work tree, separate git directory) clean and with an untracked file; layer G: a linear history of 100001 (thorough 300001) commits with the nearest valid tag 9999 .. 100000 commits behind HEAD. Every state is materialised in real git by fast-import, conformance-checked with `git log --all` / `for-each-ref` / `symbolic-ref` / `status --porcelain=v2`, and judged against R-GIT (nearest validly tagged commit, highest tag under R-SV / C11 order (auto mode: highest under either format that accepts it), distance = |reach(HEAD) minus reach(tag)|, dirty, branch, hashes, times). non-trivial = evaluations that have a valid reachable tag", all_shapes.len(), shapes.len(), if quick { ": all with <= 3 commits plus the 4-commit merge shapes" } else { "" }, shape_transitions, alpha.iter().map(|a| a.0).collect::<Vec<_>>(), names8.iter().map(|a| a.0).collect::<Vec<_>>(), baselines.len());
     cov.exhaustive = !was_capped;
     cov.samples = vec![json!({"ops":["branch b1","commit","checkout main","commit","merge b1"],"dates":"decreasing","tags":["v2.0.0@1","v1.0.0@0"],"head":"main"}), json!({"one_commit_tags":["v1.0.0","1.1.0rc1","1.1.0.post1"],"input_format":"auto"}), json!({"worktree":"IgnoredOnly","head":"detached"})];
     cov.set("clause_counts", all.to_json());
